@@ -65,11 +65,8 @@ var vC02Paths = []string{"000000001-000000001.tsm", "000000002-000000001.tsm", "
 
 func VerifHarness_C02_KeyCursor() {
 	key := []byte("cpu#!~#v")
-	// 2..3 files; at most 4 blocks in total (3 in the quick tier) of 1..2 points each
+	// 2..3 files; at most 3 blocks in total of 1..2 points each
 	maxBlocks := 3
-	if vThorough() {
-		maxBlocks = 4
-	}
 	nFiles := vLen("files", 2, 3)
 	fs := &FileStore{}
 	var files []*vC02File
@@ -101,7 +98,7 @@ func VerifHarness_C02_KeyCursor() {
 			vf.entries = append(vf.entries, IndexEntry{MinTime: pts[0].t, MaxTime: pts[n-1].t, Offset: int64(b), Size: 1})
 			vf.blocks = append(vf.blocks, pts)
 		}
-		if vThorough() && vBool("tombstone") {
+		if vThorough() && f == 0 && vBool("tombstone") {
 			lo, hi := vInt64("tombMin"), vInt64("tombMax")
 			vAssume(lo <= hi)
 			vf.tombs = []TimeRange{{Min: lo, Max: hi}}
